@@ -29,6 +29,24 @@ theorem spread_Clamp_code_tie (s : UInt8) (x : F64) : render_Spread_Clamp s x = 
     by_cases s1 : s = 1 <;> by_cases s2 : s = 2 <;> by_cases s3 : s = 3 <;>
     by_cases p : F64.toInt64 x % 2 = 0 <;> by_cases q : F64.toInt64 (-x) % 2 = 0 <;> simp [*]
 
+/-! ## the accessors of `*Gradient` (gradient.go `GradientShape`, `SpreadMethod`, `Transform`) -/
+
+/-- the Go `[6]float64` of the model's pixel-to-gradient matrix -/
+def gradAff3Of (m : Grad.Aff3 F64) : Vector F64 6 := #v[m.a, m.b, m.c, m.d, m.e, m.f]
+
+/-- gradient.go `(*Gradient).GradientShape` (an `int` in Go) -/
+theorem gradient_GradientShape_code_tie (g : Gradient F64) :
+    render_Gradient_GradientShape g.shape = (g.shape.toNat : Int) := rfl
+
+/-- gradient.go `(*Gradient).SpreadMethod` -/
+theorem gradient_SpreadMethod_code_tie (g : Gradient F64) :
+    render_Gradient_SpreadMethod g.spread = (g.spread.toNat : Int) := rfl
+
+/-- gradient.go `(*Gradient).Transform` -/
+theorem gradient_Transform_code_tie (g : Gradient F64) :
+    render_Gradient_Transform (gradAff3Of g.pix2Grad) =
+      (g.pix2Grad.a, g.pix2Grad.b, g.pix2Grad.c, g.pix2Grad.d, g.pix2Grad.e, g.pix2Grad.f) := rfl
+
 /-! ## MakeRange
 
 The model keeps the colour ends of a `Range` as the integers (`RGBA64` with `Nat` channels) where Go stores the
